@@ -302,6 +302,50 @@ func TestC10(t *testing.T) {
 	if a, err := findVar("os.Args"); err == nil && a != uintptr(unsafe.Pointer(&os.Args)) {
 		rep.Violate("C10/variable-address-wrong", fmt.Sprintf("[%s] os.Args at %p, lookup says %#x", mode, &os.Args, a), nil)
 	}
+	// a function handed out as a callable value (ExposeFunction) and looked up by name again, three times over: the value
+	// calls the function, and the by-name answers stay what they were
+	for _, ex := range []struct {
+		name string
+		real uintptr
+		want string
+	}{{"github.com/tencent/goom/zzverif/c10.tag", vmon.FuncCodePtr(tag), "func"}, {"github.com/tencent/goom/zzverif/c10.c10.tag", vmon.FuncCodePtr(c10.tag), ""}} {
+		for round := 1; round <= 3; round++ {
+			rep.Eval(2)
+			before, errB := findFunc(ex.name)
+			var got string
+			var perr interface{}
+			var ferr error
+			func() {
+				defer func() { perr = recover() }()
+				if ex.want == "" {
+					_, ferr = unexports2.ExposeFunction(ex.name, (func(c10) string)(nil))
+					return
+				}
+				f, err := unexports2.ExposeFunction(ex.name, (func() string)(nil))
+				ferr = err
+				if err == nil {
+					if p := vmon.FuncCodePtr(f); p != ex.real {
+						rep.Violate("C10/function-address-wrong", fmt.Sprintf("[%s] ExposeFunction(%q) round %d yields a function at %#x, real entry %#x", mode, ex.name, round, p, ex.real), nil)
+						return
+					}
+					got = f.(func() string)()
+				}
+			}()
+			if perr != nil {
+				rep.Violate("C10/expose-function-panics", fmt.Sprintf("[%s] ExposeFunction(%q) round %d: %v", mode, ex.name, round, perr), nil)
+			} else if ferr == nil && ex.want != "" && got != ex.want {
+				rep.Violate("C10/function-address-wrong", fmt.Sprintf("[%s] the function ExposeFunction(%q) returned answers %q, want %q", mode, ex.name, got, ex.want), nil)
+			}
+			after, errA := findFunc(ex.name)
+			if (errB == nil) != (errA == nil) || after != before {
+				rep.Violate("C10/answer-changed-by-earlier-lookup", fmt.Sprintf("[%s] FindFuncByName(%q) = %#x (err %v) before ExposeFunction round %d and %#x (err %v) after it", mode, ex.name, before, errB, round, after, errA), map[string]interface{}{"name": ex.name, "round": round})
+			}
+			if errA == nil && after != ex.real {
+				rep.Violate("C10/function-address-wrong", fmt.Sprintf("[%s] FindFuncByName(%q) after ExposeFunction round %d = %#x, real entry %#x", mode, ex.name, round, after, ex.real), nil)
+			}
+		}
+	}
+	rep.Class(mode + "/expose-function-then-lookup")
 	rep.Stat("near_miss_variable_names:"+mode, int64(vmiss))
 	rep.Sample(map[string]interface{}{"mode": mode, "functions_exact": exact, "functions_error": errs, "variables_exact": vexact, "variables_error": verr})
 }
